@@ -89,6 +89,18 @@ def gen_plan(seed, index, tier):
     plan["twin_perm"] = rng.sample(range(len(rows)), len(rows)) if (index >= 50 and not kind.startswith("BGL") and rng.random() < 0.2) else None
     # history: an earlier fit of the same GridSearch object on the same X with other labels/groups
     plan["prior_rows"] = derive_rows(rng, rows) if (index >= 50 and not kind.startswith("BGL") and rng.random() < 0.25) else None
+    # configuration seam: the caller supplies the multiplier grid itself (a subset of a generated grid, rescaled, under
+    # column labels that are not 0..k-1), or shifts the generated grid by grid_offset; the per-column clauses
+    # (request, payload, best response, records, argmin, delegation) must hold for those columns all the same
+    r = rng.random()
+    if index >= 50 and not aligned and r < 0.15:
+        k = rng.randint(1, 6)
+        plan["user_grid"] = {"take": [rng.randint(0, 59) for _ in range(k)], "scale": rng.choice([1.0, 0.5, 1.7]),
+                             "labels": rng.choice(["rev", "gap", "str"])}
+        plan["prior_rows"] = None
+    elif index >= 50 and not aligned and r < 0.25:
+        plan["grid_offset"] = [rng.choice([0.0, 0.0, 0.1, 0.5, 1.3]) for _ in range(6)]
+        plan["prior_rows"] = None
     return plan
 
 
@@ -125,8 +137,38 @@ def fit_once(plan, ctx, stall=False):
         est = seams.ExactClassifier(col=0, proba=plan["proba"])
         if plan.get("nested"):
             est = seams.NestedPeer(est)  # composite peer: fit trains a nested learner in place
+    extra_kw = {}
+    ctx.c09_expect = None
+    if plan.get("user_grid") or plan.get("grid_offset"):
+        # the constraint index is only known once a moment has seen the data: a helper GridSearch (own moment, own
+        # non-recording peer) generates the plain grid the supplied grid / the offset is built from
+        hpeer = seams.ExactRegressor(col=0, loss="square") if plan["moment"].startswith("BGL") else \
+            seams.ExactClassifier(col=0, log_payload=False)
+        helper = GridSearch(hpeer, make_constraints(plan), constraint_weight=plan["cw"], grid_size=plan["grid_size"],
+                            grid_limit=plan["grid_limit"])
+        with ctx.clock_installed():
+            okh, reth, siteh = ctx.call(helper.fit, X, y, sensitive_features=g)
+        if not okh:
+            return okh, reth, siteh, helper, est, X, y, g
+        base = helper.lambda_vecs_
+        if plan.get("user_grid"):
+            ug = plan["user_grid"]
+            take = [t % base.shape[1] for t in ug["take"]]
+            grid = base.iloc[:, take].copy() * float(ug["scale"])
+            k = len(take)
+            grid.columns = {"rev": list(range(k - 1, -1, -1)), "gap": [3 * (k - j) + 1 for j in range(k)],
+                            "str": [f"p{(j * 5) % 11}_{j}" for j in range(k)]}[ug["labels"]]
+            extra_kw["grid"] = grid
+            ctx.c09_expect = grid.copy()
+            ctx.fault("caller_supplied_grid")
+        else:
+            off = plan["grid_offset"]
+            offset = pd.Series([float(off[j % len(off)]) for j in range(len(base.index))], index=base.index)
+            extra_kw["grid_offset"] = offset
+            ctx.c09_expect = base.add(offset, axis="index")
+            ctx.fault("grid_offset")
     gs = GridSearch(est, make_constraints(plan), constraint_weight=plan["cw"], grid_size=plan["grid_size"],
-                    grid_limit=plan["grid_limit"])
+                    grid_limit=plan["grid_limit"], **extra_kw)
     ctx.ties.pos = 0
     ctx.clock.dl.pos = 0
     ctx.clock.force_stall = stall
@@ -186,14 +228,26 @@ def execute(plan, ctx):
     lam_df = gs.lambda_vecs_
     cols = list(lam_df.columns)
     # ---- 1. grid shape ------------------------------------------------------
-    if len(cols) != plan["grid_size"] or len(gs.predictors_) != plan["grid_size"]:
-        ctx.fail("C09.grid_count", f"{len(cols)} multiplier vectors / {len(gs.predictors_)} predictors for grid_size={plan['grid_size']}")
+    expect_lam = getattr(ctx, "c09_expect", None)
+    supplied = bool(plan.get("user_grid"))
+    shifted = bool(plan.get("grid_offset"))
+    want = expect_lam.shape[1] if supplied else plan["grid_size"]
+    if len(cols) != want or len(gs.predictors_) != want:
+        ctx.fail("C09.grid_count", f"{len(cols)} multiplier vectors / {len(gs.predictors_)} predictors for "
+                 f"{'a supplied grid of ' + str(want) + ' columns' if supplied else 'grid_size=' + str(want)}")
         return
     L = lam_df.to_numpy(dtype=float)
+    if expect_lam is not None:
+        # the multipliers that were trained are the caller's grid (labels and values) / the generated grid + offset
+        same_labels = [str(c) for c in cols] == [str(c) for c in expect_lam.columns]
+        E = expect_lam.reindex(lam_df.index).to_numpy(dtype=float) if set(map(str, lam_df.index)) == set(map(str, expect_lam.index)) else None
+        if not same_labels or E is None or not np.allclose(L, E, atol=1e-12, rtol=0):
+            ctx.fail("C09.grid_supplied", f"lambda_vecs_ is not the {'supplied grid' if supplied else 'generated grid shifted by grid_offset'}: "
+                     f"columns {cols[:6]} vs {list(expect_lam.columns)[:6]}")
     if (L < -1e-12).any():
         ctx.fail("C09.grid_nonneg", f"negative multiplier {L.min()}")
     l1 = np.abs(L).sum(axis=0)
-    if (l1 > plan["grid_limit"] + 1e-9).any():
+    if not (supplied or shifted) and (l1 > plan["grid_limit"] + 1e-9).any():
         ctx.fail("C09.grid_l1", f"L1 norm {l1.max()} exceeds grid_limit {plan['grid_limit']}")
     distinct = {tuple(np.round(L[:, j], 12)) for j in range(L.shape[1])}
     if regression:
@@ -201,7 +255,7 @@ def execute(plan, ctx):
     else:
         ev_groups = _expected_pairs(plan["moment"], y, g)
         pairs_missing = ev_groups["missing"]
-    if len(distinct) != len(cols):
+    if len(distinct) != len(cols) and not supplied:
         ctx.fail("C09.grid_distinct",
                  f"only {len(distinct)} distinct multiplier vectors among grid_size={len(cols)} "
                  f"(moment={plan['moment']}, some (event, group) pair empty: {pairs_missing})",
@@ -406,6 +460,12 @@ def shrink_candidates(plan):
     rows = p["rows"]
     if p.get("prior_rows"):
         yield mod(prior_rows=None)
+    if p.get("user_grid"):
+        yield mod(user_grid=None)
+        if len(p["user_grid"]["take"]) > 1:
+            yield mod(user_grid=dict(p["user_grid"], take=p["user_grid"]["take"][:len(p["user_grid"]["take"]) // 2]))
+    if p.get("grid_offset"):
+        yield mod(grid_offset=None)
     if p.get("twin_perm"):
         yield mod(twin_perm=None)
     if p.get("clock"):
